@@ -1,7 +1,136 @@
+import AuModel.Chrono
 import Driver.Util
-open Au
+open Au Au.Chrono
 
-def dispatchC17 : List String → Option String
+/-! Driver commands for C17 (AuModel.Chrono).
+
+  c17corr   <rep> <n> <d>                          CorrespondingQuantity unit of duration<rep, ratio<n,d>>
+  c17rt     <rep> <n> <d> <val>                    as_quantity → as_chrono_duration / implicit conversion
+  c17accept <trep> <tn> <td> <srep> <sn> <sd>      is_convertible<duration<srep, sn/sd>, Quantity<s·tn/td, trep>>
+  c17ops    <qd|dq|cd|dc> <rep1> <n1> <d1> <v1> <rep2> <n2> <d2> <v2>
+                                                   all eight mixed operations, Au and chrono side by side
+  values: integers in decimal, floats as exact rationals `p/q` (or `p`).
+-/
+
+def c17Rat? (s : String) : Option Rat :=
+  match s.splitOn "/" with
+  | [a] => a.toInt?.map (fun n => (n : Rat))
+  | [a, b] => match a.toInt?, b.toNat? with
+    | some n, some d => if d = 0 then none else some (mkRat n d)
+    | _, _ => none
   | _ => none
 
-/-! Driver commands for C17. -/
+def c17Val? (r : Rep) (s : String) : Option Val :=
+  if r.isIntegral then
+    match s.toInt?, r.intTy? with
+    | some v, some t => if t.inRange v then some (.i v) else none
+    | _, _ => none
+  else
+    match c17Rat? s, r.fmt? with
+    | some q, some F => if rne F q = some q then some (.f q) else none
+    | _, _ => none
+
+def c17RatStr (q : Rat) : String := if q.den = 1 then toString q.num else s!"{q.num}/{q.den}"
+
+def c17ValStr : Val → String
+  | .i v => toString v
+  | .f q => c17RatStr q
+
+def c17MagStr (m : Mag) : String :=
+  if m.isEmpty then "1" else ",".intercalate (m.map (fun a => s!"{a.1}^{a.2}"))
+
+def c17OutB : Outcome Bool → String
+  | .ok true => "true" | .ok false => "false" | .hard _ => "hard"
+
+def c17ResStr : Res OpVal → String
+  | .ok (.b v) => s!"b:{b01 v}"
+  | .ok (.v x) => s!"v:{c17ValStr x}"
+  | .ub _ => "ub"
+  | .nonfinite => "nonfinite"
+  | .illTyped => "illtyped"
+
+def c17Period? (ns ds : String) : Option Period :=
+  match ns.toNat?, ds.toNat? with
+  | some n, some d => if n = 0 || d = 0 then none else some ⟨n, d⟩
+  | _, _ => none
+
+def c17Corr (args : List String) : String :=
+  match args with
+  | [rs, ns, ds] =>
+    match Rep.ofName? rs, c17Period? ns ds with
+    | some r, some p =>
+      let u := corrUnit r p
+      let ratio := Mag.div u.2 []
+      s!"named={u.1.getD "-"} mag={c17MagStr u.2} num={(Mag.numerator ratio).natValue} den={(Mag.denominator ratio).natValue}"
+    | _, _ => "bad-op"
+  | _ => "bad-op"
+
+def c17DurStr : Outcome (Option Duration) → String
+  | .ok (some d) => s!"ok:{d.rep.name}:{d.period.num}/{d.period.den}:{c17ValStr d.count}"
+  | .ok none => "ok:other"
+  | .hard _ => "hard"
+
+def c17Rt (args : List String) : String :=
+  match args with
+  | [rs, ns, ds, vs] =>
+    match Rep.ofName? rs, c17Period? ns ds with
+    | some r, some p =>
+      match c17Val? r vs with
+      | some v =>
+        let d : Duration := ⟨r, p, v⟩
+        let q := asQuantity d
+        s!"qrep={q.rep.name} qval={c17ValStr q.value} back={c17DurStr (asChronoDuration q)} implicit={c17DurStr (toDuration q r p)}"
+      | none => "bad-op"
+    | _, _ => "bad-op"
+  | _ => "bad-op"
+
+def c17Accept (args : List String) : String :=
+  match args with
+  | [trs, tns, tds, srs, sns, sds] =>
+    match Rep.ofName? trs, c17Period? tns tds, Rep.ofName? srs, c17Period? sns sds with
+    | some tr, some tp, some sr, some sp =>
+      let tm := ratioMag tp
+      let d : Duration := ⟨sr, sp, if sr.isIntegral then .i 0 else .f 0⟩
+      let sf := Mag.div (asQuantity d).mag tm
+      s!"dur={c17OutB (durationAccepted tm tr d)} qty={c17OutB (quantityConvertible tm tr (asQuantity d))} chrono={b01 (chronoConvertible tr tp sr sp)} sf={c17MagStr sf} sfint={b01 sf.isInteger}"
+    | _, _, _, _ => "bad-op"
+  | _ => "bad-op"
+
+def c17Ops (args : List String) : String :=
+  match args with
+  | [side, r1s, n1s, d1s, v1s, r2s, n2s, d2s, v2s] =>
+    -- side: q = generic-unit Quantity (Seconds * mag<n>/mag<d>), c = the corresponding quantity
+    -- (as_quantity of the duration type), d = duration; first letter = left operand.
+    if !(["qd", "dq", "cd", "dc"].contains side) then "bad-op" else
+    match Rep.ofName? r1s, c17Period? n1s d1s, Rep.ofName? r2s, c17Period? n2s d2s with
+    | some r1, some p1, some r2, some p2 =>
+      match c17Val? r1 v1s, c17Val? r2 v2s with
+      | some v1, some v2 =>
+        let d1 : Duration := ⟨r1, p1, v1⟩
+        let d2 : Duration := ⟨r2, p2, v2⟩
+        let leftIsQ := side = "qd" || side = "cd"
+        let q1 : Quantity := if side = "qd" then ⟨r1, ratioMag p1, none, v1⟩ else asQuantity d1
+        let q2 : Quantity := if side = "dq" then ⟨r2, ratioMag p2, none, v2⟩ else asQuantity d2
+        let (cm, cr) := commonQuantity q1 q2
+        let comp := match (if leftIsQ then mixedCompilesQD q1 d2 else mixedCompilesQD q2 d1) with
+          | .ok () => "ok" | .hard _ => "hard"
+        let k1 := Mag.div q1.mag cm
+        let k2 := Mag.div q2.mag cm
+        let cp := chronoCommonPeriod p1 p2
+        let au := fun (op : Op) => if leftIsQ then mixedOpQD rne op q1 d2 else mixedOpDQ rne op d1 q2
+        let ch := fun (op : Op) => chronoOp rne op d1 d2
+        let opsStr := " ".intercalate (Op.all.map (fun op =>
+          s!"au_{op.name}={c17ResStr (au op)} ch_{op.name}={c17ResStr (ch op).val}"))
+        s!"compiles={comp} crep={cr.name} cnum={(Mag.numerator cm).natValue} cden={(Mag.denominator cm).natValue} " ++
+        s!"k1={if k1.isInteger then toString k1.natValue else "-"} k2={if k2.isInteger then toString k2.natValue else "-"} " ++
+        s!"cpn={cp.num} cpd={cp.den} narrowed={b01 (ch Op.eq).narrowed} " ++ opsStr
+      | _, _ => "bad-op"
+    | _, _, _, _ => "bad-op"
+  | _ => "bad-op"
+
+def dispatchC17 : List String → Option String
+  | "c17corr" :: args => some (c17Corr args)
+  | "c17rt" :: args => some (c17Rt args)
+  | "c17accept" :: args => some (c17Accept args)
+  | "c17ops" :: args => some (c17Ops args)
+  | _ => none
